@@ -83,7 +83,7 @@ theorem tdIter_fuel (g : Graph) (hwf : g.WF = true) :
         intro d hd
         unfold Graph.WF at hwf
         have := List.all_eq_true.1 hwf t (hq t List.mem_cons_self)
-        have := List.all_eq_true.1 this d hd
+        have := List.all_eq_true.1 this d (List.mem_append_left _ hd)
         simpa using this
       have hneed := pushDeps_need g (t :: P) (g.succs t) q hsucc
       have hpop := unseen_pop g P q t
